@@ -26,6 +26,7 @@
    attribute absent. *)
 From Coq Require Import ZArith List Bool.
 From FT Require Import Base.Dict Model.ImportTable Proofs.ImportTableProofs.
+From FT Require Proofs.ImportTie.
 Import ListNotations.
 Open Scope Z_scope.
 
@@ -178,6 +179,14 @@ Definition T1 : table := {| t_cols := [100; 101; 102; 103; 104; 105];
              [CStr 4; CInt (-1); CInt 0; CTok 5; CTok 6; CTok 7]] |}.
 Definition M1 : name_map := [(k_id, Single 100); (k_parent, Single 101); (k_time, Single 102); (k_pos, Multi [103; 104]);
                              (110, Single 105); (111, Single 102); (112, Single 103)].
+(* ---- the import pipeline of the model is, for all arguments, the code translated on every run from the current _tracks_builder.py, csv/_import.py, geff/_import.py and _validation.py (Gen/ImportPipeline_gen.v; translator harness/translate_import.py, fail closed; combinators Model/PyRt6.v; pandas dtype inference, geff's id validators and file reading stay oracle inputs).  The statements are those of the cited theorems of Proofs/ImportTie.v: whole CSV build = import_csv, whole GEFF build = import_geff, handle_segmentation = the model's ---- *)
+Theorem C12_csv_build_is_generated : ltac:(let t := type of @FT.Proofs.ImportTie.gen_csv_build_eq in exact t).
+Proof. exact @FT.Proofs.ImportTie.gen_csv_build_eq. Qed.
+
+Theorem C12_geff_build_is_generated : ltac:(let t := type of @FT.Proofs.ImportTie.gen_geff_build_eq in exact t).
+Proof. exact @FT.Proofs.ImportTie.gen_geff_build_eq. Qed.
+
+
 Example C12_string_ids_renamed_columns :
   wf_map (t_cols T1) M1 = true /\ wf_table T1 false M1 = true /\
   import_csv T1 false true true M1 = Ok {|
@@ -314,3 +323,5 @@ Print Assumptions C12_geff_reject_structure_any_map.
 Print Assumptions C12_geff_reject_unmapped_time.
 Print Assumptions C12_geff_reject_unmapped_pos.
 Print Assumptions C12_geff_reject_missing_prop.
+Print Assumptions C12_csv_build_is_generated.
+Print Assumptions C12_geff_build_is_generated.
